@@ -522,9 +522,12 @@ def one_run(text, decl_path, reps, continuation=None, want_cont=False):
 def run_impl(case):
     kind = case["kind"]
     if kind == "free":
-        from snowfakery.generate_mapping_from_recipe import _table_is_free
-        from snowfakery.data_generator_runtime import Dependency
-        from snowfakery.utils.collections import OrderedSet
+        try:
+            from snowfakery.generate_mapping_from_recipe import _table_is_free
+            from snowfakery.data_generator_runtime import Dependency
+            from snowfakery.utils.collections import OrderedSet
+        except (ImportError, AttributeError):
+            return {"skip": "internal name missing"}      # private helper renamed: nothing to compare
         deps = {}
         for k, v in case["deps"]:
             s = OrderedSet()
@@ -536,9 +539,12 @@ def run_impl(case):
         except BaseException as e:
             return {"err": C.canon_exc(e)}
     if kind == "sort":
-        from snowfakery.generate_mapping_from_recipe import sort_dependencies
-        from snowfakery.data_generator_runtime import Dependency
-        from snowfakery.utils.collections import OrderedSet
+        try:
+            from snowfakery.generate_mapping_from_recipe import sort_dependencies
+            from snowfakery.data_generator_runtime import Dependency
+            from snowfakery.utils.collections import OrderedSet
+        except (ImportError, AttributeError):
+            return {"skip": "internal name missing"}
 
         def mk(pairs, field):
             d = {}
@@ -643,7 +649,7 @@ def _run_coq(run, start, continued):
 
 def coq_case(case, obs):
     kind = case["kind"]
-    if not _ascii_ok(case):
+    if not _ascii_ok(case) or obs.get("skip"):
         return None
     if kind == "free":
         if "ok" not in obs:
@@ -772,6 +778,8 @@ def check_mapping_rules(recipe, mapping, refs, label):
 
 def oracle(case, obs):
     kind = case["kind"]
+    if obs.get("skip"):
+        return None
     if kind == "free":
         if "ok" not in obs:
             return f"free: _table_is_free raised {obs['err']}"
